@@ -2,7 +2,9 @@
 
 Exhaustive enumeration over the differentiable sub-language (every (parent, slot, child) triple
 whose comparisons / logical operators / set memberships are parameter-free) x parameter points x
-call forms, on the real engine, against exact hyper-dual derivatives (vf.refsem).
+call forms, on the real engine, against exact hyper-dual derivatives (vf.refsem).  Part 'lindup':
+every linear utility (bioLinearUtility) of 2..3 (thorough 2..4) terms in which one parameter is met in
+several terms, on its own, under exp and inside a logit.
 """
 from __future__ import annotations
 
@@ -19,7 +21,10 @@ TECHNIQUE = 'bounded exhaustive enumeration of differentiable expression trees x
 RULE = ('one case = one (formula, parameter point, call form); formulas: every (parent kind, slot, child kind) triple of the '
         'differentiable sub-language x 2 filler rotations; call forms: get_value_and_derivatives (per-row and aggregated; '
         'flag combinations g / g+h / g+b / g+h+b; named), create_function, create_objective_function (f, f_g, f_g_h), '
-        'BIOGEME.calculate_likelihood_and_derivatives (scaled on/off), tools.derivatives finite differences on a pool. '
+        'BIOGEME.calculate_likelihood_and_derivatives (scaled on/off), tools.derivatives finite differences on a pool; '
+        'bioLinearUtility term lists of length 2..3 (thorough 2..4) over all parameters x {x1, x2} in which a parameter repeats '
+        '(all of them on their own; those over a core sub-alphabet also under exp and inside a logit, every call form), with '
+        'lists without a repeat as controls. '
         'Non-trivial = at least one row with a non-zero reference gradient compared; distinct = distinct (formula, point, form).')
 ASSUMPTIONS = [
     'derivatives compared at the alphabet grid points only; non-differentiable points (min/max ties, fragile branches) excluded and counted',
@@ -565,6 +570,9 @@ def tasks(tier, seed):
     t.append(dict(part='nodb'))
     for i in range(3):
         t.append(dict(part='refusal', which=i, fresh=True))
+    nld = len(_lindup_space(tier))
+    for lo in range(0, nld, LINDUP_CHUNK):
+        t.append(dict(part='lindup', tier=tier, lo=lo, hi=min(lo + LINDUP_CHUNK, nld)))
     if tier == 'thorough':
         n1 = len(list(G.trees(1)))
         for a in range(n1):
@@ -632,6 +640,8 @@ def run_task(task):
             _nodb(rec)
         elif part == 'refusal':
             _refusal(task, rec)
+        elif part == 'lindup':
+            _lindup(task, rec)
     except StopTask:
         rec.count('task_stopped_after_engine_error')
     return rec.result()
@@ -1324,6 +1334,284 @@ def _refusal(task, rec):
         rec.case(('refusal', task['which']), (task['which'], type(e).__name__), outcome='refused')
 
 
+# ------------------------------------------------------------------ linear utilities in which a parameter repeats
+# bioLinearUtility([(beta_1, x_1), ..., (beta_k, x_k)]) with ONE parameter in TWO or more terms: the value is the sum of all
+# terms, so the derivative with respect to that parameter is the sum of the variables of all of its terms.
+LINDUP_KEY = 'C02|gradient|engine:bioLinearUtility-with-one-parameter-in-several-terms'
+LINDUP_QUIRK = 'linutil_last_partner'
+LINDUP_VARS = ('x1', 'x2')
+LINDUP_WRAPS = ('bare', 'exp', 'logit')
+# sub-alphabet on which every wrapper x every call form is explored: two free parameters whose order of appearance in the
+# alphabet is the reverse of their sorted order ('B2' < 'b_z'), and a fixed one
+LINDUP_CORE = ('b_z', 'B2', 'a_fix')
+LINDUP_FORMS = ['disagg', 'agg', 'agg_g', 'create_function', 'biogeme', 'biogeme_scaled']
+LINDUP_LIGHT = ['disagg', 'agg']
+LINDUP_CONTROL_FORMS = ['disagg', 'agg', 'biogeme']
+LINDUP_CHUNK = 24
+
+
+def _lindup_lists(params, lengths, repeated):
+    """Every term list of the given lengths over params x {x1, x2} in which some parameter occurs twice (repeated=True) /
+    no parameter occurs twice (False) and at least one parameter is free; shortest first."""
+    pairs = [(p, v) for p in params for v in LINDUP_VARS]
+    out = []
+    for n_terms in lengths:
+        for lst in itertools.product(pairs, repeat=n_terms):
+            names = [p for p, _ in lst]
+            if (len(set(names)) < n_terms) == repeated and any(p in G.FREE for p in names):
+                out.append(tuple(lst))
+    return out
+
+
+def _lindup_partner(lst):
+    """The second utility of the logit wrapper: the terms in reverse order (another term is the last one of a repeated
+    parameter), every free parameter replaced by the next free one of the alphabet and every fixed one by the next fixed
+    one (so the two utilities never cancel); it repeats a parameter exactly where the list does."""
+    ring, fixed = list(G.FREE), list(G.FIXED)
+
+    def nxt(p):
+        grp = ring if p in ring else fixed
+        return grp[(grp.index(p) + 1) % len(grp)]
+
+    return tuple((nxt(p), v) for p, v in reversed(lst))
+
+
+def _lindup_term(lst, wrap):
+    u = ('linutil', tuple((p, v) for p, v in lst))
+    if wrap == 'bare':
+        return u
+    if wrap == 'exp':
+        return ('exp', u)
+    if wrap == 'logit':
+        return ('loglogit', ('var', 'choice'), ((1, u, None), (2, ('linutil', _lindup_partner(lst)), None),
+                                                (3, ('num', 0.0), None)))
+    raise ValueError(wrap)
+
+
+def _lindup_forms(sub, wrap, tier):
+    """Call forms of a sub-space.  The logit audits its utilities with several engine runs of its own at every call (about
+    five times the cost of the other formulas): in the quick tier it gets the per-observation and the model form only, and
+    the scaled likelihood (the same engine output divided by the sample size) is left to the thorough tier."""
+    if sub == 'full':
+        return ['disagg'] if tier == 'quick' else LINDUP_LIGHT
+    if tier != 'quick':
+        return LINDUP_CONTROL_FORMS if sub == 'control' else LINDUP_FORMS
+    if sub == 'control':
+        return ['disagg'] if wrap == 'logit' else LINDUP_CONTROL_FORMS
+    return ['disagg', 'biogeme'] if wrap == 'logit' else [f for f in LINDUP_FORMS if f != 'biogeme_scaled']
+
+
+_LINDUP_SPACES = {}
+
+
+def _lindup_space(tier):
+    if tier not in _LINDUP_SPACES:
+        _LINDUP_SPACES[tier] = _lindup_space_build(tier)
+    return _LINDUP_SPACES[tier]
+
+
+def _lindup_space_build(tier):
+    """[(term list, wrapper, call forms)], deterministic, simplest first.  Every sub-space is enumerated completely:
+      control   lists of length 2..3 over the core sub-alphabet WITHOUT a repeated parameter x every wrapper;
+      core      every list of length 2..3 over the core sub-alphabet with a repeated parameter x every wrapper x every form;
+      full      every other list of length 2..3 (thorough: 2..4) over all parameters of the alphabet (free and fixed) with a
+                repeated parameter, on its own, per observation (thorough: and aggregated; lengths 2..3 also in every wrapper)."""
+    full = list(G.FREE) + list(G.FIXED)
+    out = []
+    for lst in _lindup_lists(LINDUP_CORE, (2, 3), False):
+        for wrap in LINDUP_WRAPS:
+            out.append((lst, wrap, _lindup_forms('control', wrap, tier)))
+    for lst in _lindup_lists(LINDUP_CORE, (2, 3), True):
+        for wrap in LINDUP_WRAPS:
+            out.append((lst, wrap, _lindup_forms('core', wrap, tier)))
+    for lst in _lindup_lists(full, (2, 3) if tier == 'quick' else (2, 3, 4), True):
+        if all(p in LINDUP_CORE for p, _ in lst) and len(lst) <= 3:
+            continue
+        for wrap in (('bare',) if tier == 'quick' or len(lst) > 3 else LINDUP_WRAPS):
+            out.append((lst, wrap, _lindup_forms('full', wrap, tier)))
+    return out
+
+
+def _lindup_refs(term, free, rows, full, quirks=()):
+    """Reference value / gradient / Hessian / BHHH per row and summed; with ``quirks`` the engine's known defect is mimicked."""
+    n = len(free)
+    if quirks:
+        per = [R.evaluate_hd(term, free, row, full, strict=False, quirks=quirks) for (_, row, _, _, _) in rows]
+    else:
+        per = [(f, g, h) for (_, _, f, g, h) in rows]
+    F = [p[0] for p in per]
+    Gs = [p[1] for p in per]
+    Hs = [p[2] for p in per]
+    Bs = [_outer(g) for g in Gs]
+    return dict(F=F, G=Gs, H=Hs, B=Bs, aggF=sum(F), aggG=_sum_vec(Gs, n), aggH=_sum_mat(Hs, n), aggB=_sum_mat(Bs, n))
+
+
+def _lindup_judge(obs, ref):
+    """First clause of the property that the observation breaks with respect to a reference, or None."""
+    if obs['kind'] == 'rows':
+        if not _cmp_vec(obs['f'], ref['F']):
+            return 'value'
+        if len(obs['g']) != len(ref['G']) or not all(_cmp_vec(a, b) for a, b in zip(obs['g'], ref['G'])):
+            return 'gradient'
+        if len(obs['h']) != len(ref['H']) or not all(_cmp_mat(a, b) for a, b in zip(obs['h'], ref['H'])):
+            return 'hessian'
+        if not all(_symmetric(h) for h in obs['h']):
+            return 'hessian-not-symmetric'
+        if len(obs['b']) != len(ref['B']) or not all(_cmp_mat(a, b) for a, b in zip(obs['b'], ref['B'])):
+            return 'bhhh-not-outer-product-of-gradients'
+        return None
+    div = obs['div']
+    if not dclose(obs['f'], ref['aggF'] / div):
+        return 'aggregated-value-not-sum'
+    if not _cmp_vec(obs['g'], [x / div for x in ref['aggG']]):
+        return 'aggregated-gradient-not-sum'
+    if obs['h'] is not None:
+        if not _cmp_mat(obs['h'], [[x / div for x in r_] for r_ in ref['aggH']]):
+            return 'aggregated-hessian-not-sum'
+        if not _symmetric(obs['h']):
+            return 'hessian-not-symmetric'
+    if obs['b'] is not None and not _cmp_mat(obs['b'], [[x / div for x in r_] for r_ in ref['aggB']]):
+        return 'bhhh-not-sum-of-outer-products'
+    return None
+
+
+def check_lindup(lst, wrap, rec, forms, points=None):
+    """One linear utility (on its own / under exp / in a logit) x parameter points x call forms against the exact
+    derivatives.  A disagreement is the KNOWN engine defect only when everything observed (value, gradient, Hessian, BHHH)
+    equals the reference in which that defect is mimicked (derivative of a linear utility with respect to a parameter =
+    the variable of the LAST term carrying it); anything else is reported under a key of its own."""
+    from vf.engine import make_db, make_biogeme, is_engine_error
+    import numpy as np
+
+    lst = tuple((p, v) for p, v in lst)
+    term = _lindup_term(lst, wrap)
+    free = sorted(b for b in R.leaves(term, 'beta') if b in G.FREE)   # ASCII order = the library's sorted list
+    n = len(free)
+    if n == 0:
+        rec.count('formulas_without_free_parameter')
+        return
+    names_in = [p for p, _ in lst]
+    repeated = len(set(names_in)) < len(names_in)
+    shown = '+'.join(f'{p}*{v}' for p, v in lst)
+    tag = f'lindup:{wrap}:{shown}'
+    keyname = f'linear-utility-{"with-a" if repeated else "without"}-repeated-parameter[{wrap}]'
+    for label, betas_arg, full in G.param_points():
+        if points is not None and label not in points:
+            continue
+        rows = ref_rows(term, full, free, rec)
+        if not rows:
+            rec.case(None, (tag, label, 'no-row'), outcome='no-valid-row')
+            continue
+        ref = _lindup_refs(term, free, rows, full)
+        try:
+            qref = _lindup_refs(term, free, rows, full, quirks=(LINDUP_QUIRK,))
+        except (R.OutOfDomain, R.Fragile):
+            qref = None
+        nz = any(any(x != 0.0 for x in g) for g in ref['G'])
+        db = make_db([r[1] for r in rows], G.COLUMNS)
+        ssize = float(len(rows))
+
+        def vec(v):
+            return [float(x) for x in v]
+
+        def mat(m):
+            return [[float(x) for x in r_] for r_ in m]
+
+        def observe(form, expr):
+            """Normalised observation, or (clause, expected, observed) for a failure that needs no reference."""
+            if form == 'disagg':
+                res = expr.get_value_and_derivatives(betas=betas_arg, database=db, gradient=True, hessian=True, bhhh=True,
+                                                     aggregation=False, prepare_ids=True)
+                return dict(kind='rows', f=vec(res.functions), g=[vec(g) for g in res.gradients],
+                            h=[mat(h) for h in res.hessians], b=[mat(h) for h in res.bhhhs])
+            if form in ('agg', 'agg_g'):
+                hb = form == 'agg'
+                res = expr.get_value_and_derivatives(betas=betas_arg, database=db, gradient=True, hessian=hb, bhhh=hb,
+                                                     aggregation=True, prepare_ids=True)
+                if not hb and (res.hessian is not None or res.bhhh is not None):
+                    return ('unrequested-quantity-returned', None, (repr(res.hessian)[:80], repr(res.bhhh)[:80]))
+                return dict(kind='agg', div=1.0, f=float(res.function), g=vec(res.gradient),
+                            h=mat(res.hessian) if hb else None, b=mat(res.bhhh) if hb else None)
+            if form == 'create_function':
+                fct = expr.create_function(database=db, number_of_draws=10, gradient=True, hessian=True, bhhh=True)
+                names = list(expr.id_manager.free_betas.names)
+                if names != free:
+                    return ('reported-free-names-not-sorted', free, names)
+                res = fct(np.array([full[nm] for nm in names], dtype=float))
+                return dict(kind='agg', div=1.0, f=float(res.function), g=[float(res.gradient[nm]) for nm in free],
+                            h=[[float(res.hessian[a][b]) for b in free] for a in free],
+                            b=[[float(res.bhhh[a][b]) for b in free] for a in free])
+            if form in ('biogeme', 'biogeme_scaled'):
+                scaled = form == 'biogeme_scaled'
+                bg = make_biogeme(db, expr)
+                names = list(bg.free_beta_names)
+                if names != free:
+                    return ('reported-free-names-not-sorted', free, names)
+                res = bg.calculate_likelihood_and_derivatives(np.array([full[nm] for nm in names], dtype=float),
+                                                              scaled=scaled, hessian=True, bhhh=True)
+                return dict(kind='agg', div=ssize if scaled else 1.0, f=float(res.function), g=vec(res.gradient),
+                            h=mat(res.hessian), b=mat(res.bhhh))
+            raise ValueError(form)
+
+        for form in forms:
+            key = (tag, label, form) if nz else None
+            case = dict(part='lindup', terms=[list(pv) for pv in lst], wrap=wrap, point=label, form=form)
+
+            def fail(clause, expected=None, observed=None):
+                rec.violation(f'C02|{clause}|{form}:{keyname}',
+                              f'{clause} [{form}] for {R.show(term)} ({label}); free={free}', case,
+                              expected=expected, observed=observed)
+
+            try:
+                obs = observe(form, R.Builder(G.betas_spec()).build(term))
+            except Exception as e:
+                rec.case(key, (tag, label, form, type(e).__name__), outcome='raised')
+                fail(f'raised-{type(e).__name__}', observed=repr(e)[:300])
+                if is_engine_error(e):
+                    rec.retire = True
+                    raise StopTask()
+                continue
+            if isinstance(obs, tuple):
+                rec.case(key, (tag, label, form, obs[0]), outcome=obs[0])
+                fail(*obs)
+                continue
+            digest = (tag, label, form, [round(v, 8) for v in (obs['f'] if obs['kind'] == 'rows' else [obs['f']])],
+                      [[round(x, 7) for x in g] for g in (obs['g'] if obs['kind'] == 'rows' else [obs['g']])])
+            clause = _lindup_judge(obs, ref)
+            if clause is None:
+                rec.case(key, digest, outcome=('ok', repeated))
+                continue
+            rows_form = obs['kind'] == 'rows'
+            expected = dict(gradient=ref['G'] if rows_form else [x / obs['div'] for x in ref['aggG']])
+            observed = dict(gradient=obs['g'])
+            if 'gradient' not in clause:
+                expected = dict(expected, value=ref['F'] if rows_form else ref['aggF'] / obs['div'],
+                                hessian=ref['H'] if rows_form else ref['aggH'], bhhh=ref['B'] if rows_form else ref['aggB'])
+                observed = dict(observed, value=obs['f'], hessian=obs['h'], bhhh=obs['b'])
+            if repeated and qref is not None and 'gradient' in clause and _lindup_judge(obs, qref) is None:
+                # exactly the known defect: every quantity returned is what follows from the last-partner derivative
+                rec.case(key, digest, outcome='known-engine-defect-mimicked-exactly')
+                rec.count('lindup_cases_equal_to_the_mimicked_engine_defect')
+                rec.violation(LINDUP_KEY,
+                              f'{clause} [{form}] for {R.show(term)} ({label}); free={free}: the derivative of the linear utility '
+                              f'with respect to a parameter met in several terms is the variable of the LAST term carrying it '
+                              f'instead of the sum over its terms (engine bioExprLinearUtility.cc keeps one partner per literal); '
+                              f'value, gradient, Hessian and BHHH returned equal the reference with exactly that defect mimicked',
+                              case, expected=expected, observed=observed)
+                continue
+            rec.case(key, digest, outcome=('mismatch', clause))
+            fail(clause, expected, observed)
+
+
+def _lindup(task, rec):
+    space = _lindup_space(task['tier'])
+    for idx in range(task['lo'], min(task['hi'], len(space))):
+        lst, wrap, forms = space[idx]
+        if idx == task['lo']:
+            rec.sample(dict(lindup=R.show(_lindup_term(lst, wrap)), forms=list(forms)))
+        check_lindup(lst, wrap, rec, forms)
+
+
 def replay(case):
     rec = Rec()
     try:
@@ -1355,6 +1643,10 @@ def replay(case):
             _nodb(rec)
         elif part == 'refusal':
             _refusal(case, rec)
+        elif part == 'lindup':
+            check_lindup([tuple(pv) for pv in case['terms']], case['wrap'], rec,
+                         [case['form']] if case.get('form') in LINDUP_FORMS else LINDUP_FORMS,
+                         points=[case['point']] if case.get('point') else None)
     except StopTask:
         pass
     return rec.violations
